@@ -161,7 +161,7 @@ ASSUME = ['fsync / power-loss durability belongs to SQLite and the OS; MySQL/Pos
 
 def main(argv):
     return run_check('C15', [SqlCrashStream()], argv, trusted_base=TRUSTED, assumptions=ASSUME,
-                     translated=('sql', 'pin_sql'))
+                     translated=('sql', 'sqlmodel', 'pin_sql', 'pin_util'))
 
 
 if __name__ == '__main__':
